@@ -296,21 +296,21 @@ theorem reorderSplit_total {S : α → Prop} (laws : OrderLawsOn S) {items : Lis
 items – whatever pivot the search chose, whichever exit it took. -/
 theorem split_sep {S : α → Prop} (laws : OrderLawsOn S) (wt : Int → Int → Bool) (coord : Nat)
     (sum : Int) (items : List (Item α)) (hS : ∀ x ∈ items, S (x.key coord)) :
-    ∀ (fuel it : Nat) (mn mx : α) (prev : Option Nat) (out : SplitOut α),
-      split wt coord sum items fuel it mn mx prev = .ok out →
+    ∀ (fuel it : Nat) (mn mx : α) (prev : Option Nat) (mv : Bool) (out : SplitOut α),
+      split wt coord sum items fuel it mn mx prev mv = .ok out →
       (out.left ++ out.right).Perm items ∧
         ∀ x ∈ out.left, ∀ y ∈ out.right, Coord.lt (x.key coord) (y.key coord) = true := by
   intro fuel
   induction fuel with
-  | zero => intro it mn mx prev out h; simp [split] at h
+  | zero => intro it mn mx prev mv out h; simp [split] at h
   | succ fuel ih =>
-    intro it mn mx prev out h
+    intro it mn mx prev mv out h
     simp only [split] at h
     split at h
     · split at h
       · cases h
         simp
-      · exact ih _ _ _ _ _ h
+      · exact ih _ _ _ _ _ _ h
     · next idx nd hn =>
       split at h
       · next e he =>
@@ -321,8 +321,8 @@ theorem split_sep {S : α → Prop} (laws : OrderLawsOn S) (wt : Int → Int →
           cases h
           exact reorderSplit_sep laws hS hr
       · split at h
-        · exact ih _ _ _ _ _ h
-        · exact ih _ _ _ _ _ h
+        · exact ih _ _ _ _ _ _ h
+        · exact ih _ _ _ _ _ _ h
 
 theorem scanFold_idx (coord : Nat) (t : α) : ∀ (l : List (Item α)) (k : Nat) (st : Scan α),
     (∀ i d, st.nearest = some (i, d) → i < k) →
@@ -358,18 +358,18 @@ theorem scan_idx_lt (items : List (Item α)) (coord : Nat) (t : α) (i : Nat) (d
 `reorder_split_scalar` included). -/
 theorem split_no_oob {S : α → Prop} (laws : OrderLawsOn S) (wt : Int → Int → Bool) (coord : Nat)
     (sum : Int) (items : List (Item α)) (hS : ∀ x ∈ items, S (x.key coord)) :
-    ∀ (fuel it : Nat) (mn mx : α) (prev : Option Nat),
-      split wt coord sum items fuel it mn mx prev ≠ .oob := by
+    ∀ (fuel it : Nat) (mn mx : α) (prev : Option Nat) (mv : Bool),
+      split wt coord sum items fuel it mn mx prev mv ≠ .oob := by
   intro fuel
   induction fuel with
-  | zero => intro it mn mx prev h; simp [split] at h
+  | zero => intro it mn mx prev mv h; simp [split] at h
   | succ fuel ih =>
-    intro it mn mx prev h
+    intro it mn mx prev mv h
     simp only [split] at h
     split at h
     · split at h
       · cases h
-      · exact ih _ _ _ _ h
+      · exact ih _ _ _ _ _ h
     · next idx nd hn =>
       split at h
       · next e he =>
@@ -377,8 +377,8 @@ theorem split_no_oob {S : α → Prop} (laws : OrderLawsOn S) (wt : Int → Int 
         rw [hr] at h
         cases h
       · split at h
-        · exact ih _ _ _ _ h
-        · exact ih _ _ _ _ h
+        · exact ih _ _ _ _ _ h
+        · exact ih _ _ _ _ _ h
 
 /-! ## `rcb_recurse` -/
 
@@ -407,7 +407,7 @@ theorem recurse_bisection {S : α → Prop} (laws : OrderLawsOn S) (wt : Int →
       · cases h
       · next r hr =>
         obtain ⟨hperm, hsep⟩ := split_sep laws wt coord sum (x :: xs) (fun y hy => hS y hy coord)
-          _ _ _ _ _ _ hr
+          _ _ _ _ _ _ _ hr
         have hml : ∀ y ∈ r.left, y ∈ x :: xs := fun y hy =>
           hperm.mem_iff.1 (List.mem_append_left _ hy)
         have hmr : ∀ y ∈ r.right, y ∈ x :: xs := fun y hy =>
@@ -454,11 +454,11 @@ theorem recurse_no_oob {S : α → Prop} (laws : OrderLawsOn S) (wt : Int → In
     | cons x xs =>
       simp only [recurse] at h
       split at h
-      · next hs => exact split_no_oob laws wt coord sum (x :: xs) (fun y hy => hS y hy coord) _ _ _ _ _ hs
+      · next hs => exact split_no_oob laws wt coord sum (x :: xs) (fun y hy => hS y hy coord) _ _ _ _ _ _ hs
       · cases h
       · next r hr =>
         obtain ⟨hperm, _⟩ := split_sep laws wt coord sum (x :: xs) (fun y hy => hS y hy coord)
-          _ _ _ _ _ _ hr
+          _ _ _ _ _ _ _ hr
         have hml : ∀ y ∈ r.left, y ∈ x :: xs := fun y hy =>
           hperm.mem_iff.1 (List.mem_append_left _ hy)
         have hmr : ∀ y ∈ r.right, y ∈ x :: xs := fun y hy =>
